@@ -63,7 +63,7 @@ ENC_QUICK = [
     enc_shape([1], maxb=40), enc_shape([16], maxb=40), enc_shape([17], maxb=40), enc_shape([33], maxb=40),
     enc_shape([16], maxb=40, minb=40), enc_shape([20], maxb=40, minb=30), enc_shape([8], [3], maxb=25 + 8), enc_shape([1], maxb=25),
     enc_shape([2], maxb=25), enc_shape([8], [0xFF]), enc_shape([8], [2]),
-    enc_shape([8, 8]), enc_shape([8, 8], [1, 3]), enc_shape([8, 41]), enc_shape([41, 8]), enc_shape([8, 33]),
+    enc_shape([8, 8]), enc_shape([8, 16]), enc_shape([8, 15]), enc_shape([8, 17]), enc_shape([4, 4, 16], maxb=80), enc_shape([8, 8], [1, 3]), enc_shape([8, 41]), enc_shape([41, 8]), enc_shape([8, 33]),
     enc_shape([8, 8], minb=64), enc_shape([8, 8], api=2),
     enc_shape([8, 8, 8]), enc_shape([8, 41, 8]), enc_shape([8, 8, 8], [1, 3, 1]), enc_shape([4, 4, 4], [3, 3, 1], maxb=64, minb=20),
     enc_shape([], api=1), enc_shape([], api=2),
@@ -96,19 +96,34 @@ def enc_jobs(entries, quick_shapes=None, thorough_shapes=None):
     return jobs
 
 
+def enc_twice_jobs():
+    """a real earlier encode call, then the batch (C09/C10 direct history check)"""
+    jobs = []
+    batches = [enc_shape([8]), enc_shape([41]), enc_shape([8, 8], [1, 3]), enc_shape([17], maxb=40)]
+    priors = [{"PL0": 8}, {"PL0": 8, "PT0": 3}, {"PL0": 50}, {"PL0": 8, "PMAX": 100}, {"PL0": 90, "PMAX": 40}]
+    for bi, d in enumerate(batches):
+        for pi, pr in enumerate(priors):
+            dd = dict(d)
+            dd.update(pr)
+            tier = "quick" if (bi in (0, 1) or pi in (0, 1)) and not (bi == 3 and pi > 1) else "thorough"
+            jobs.append(Job("enc.cpp", "h_enc_twice", defs=dd, unwind=1200, tier=tier, in_max=enc_in_max(d) + 160, mem_gb=4,
+                            sym=ENC_SYM + "; the earlier call's payload, timestamp and flags; its version is the batch's version xor 0x5A", outside=ENC_OUT))
+    return jobs
+
+
 ENC_ASSUME = COMMON_ASSUME + [
     "batch shape (packet count, payload lengths, message types, min/max frame size, API overload) is enumerated concretely; everything else is symbolic",
     "expected frames come from an independent protocol model written in the harness (harness/enc.cpp buildModel), not from the library",
     "the encoder's counter start value is installed through the ASAM_CMP_VERIF friend hook (any 16-bit value)",
 ]
-PROPS["C07"] = {"jobs": lambda: enc_jobs(["h_enc_model"]), "assumptions": ENC_ASSUME,
+PROPS["C07"] = {"jobs": lambda: enc_jobs(["h_enc_model"]) + enc_twice_jobs(), "assumptions": ENC_ASSUME,
                 "level": "bounded symbolic model checking of Encoder::encode against an independent frame model, all contents symbolic per shape"}
-PROPS["C08"] = {"jobs": lambda: enc_jobs(["h_enc_model"]), "assumptions": ENC_ASSUME,
+PROPS["C08"] = {"jobs": lambda: enc_jobs(["h_enc_model"]) + enc_twice_jobs(), "assumptions": ENC_ASSUME,
                 "level": "bounded symbolic model checking of Encoder::encode against an independent segmentation/aggregation model"}
-PROPS["C09"] = {"jobs": lambda: enc_jobs(["h_enc_model", "h_enc_reset"]), "assumptions": ENC_ASSUME + [
+PROPS["C09"] = {"jobs": lambda: enc_jobs(["h_enc_model", "h_enc_reset"]) + enc_twice_jobs(), "assumptions": ENC_ASSUME + [
     "history quantifier: one encode call from an arbitrary counter value and arbitrary ids is an inductive step; the lift to all histories is by induction on the number of calls (DESIGN.md section 2)"],
                 "level": "bounded symbolic model checking of one encode/configuration step from an arbitrary counter state (inductive step over histories)"}
-PROPS["C10"] = {"jobs": lambda: enc_jobs(["h_enc_used", "h_enc_model"]), "assumptions": ENC_ASSUME + [
+PROPS["C10"] = {"jobs": lambda: enc_jobs(["h_enc_used", "h_enc_model"]) + enc_twice_jobs(), "assumptions": ENC_ASSUME + [
     "history quantifier by induction: (post) every encode leaves the scratch state cleared - asserted in h_enc_model; (step) from any such post-state with any remembered message type and counter, encode equals the fresh-encoder model - h_enc_used"],
                 "level": "bounded symbolic model checking of the induction step 'encode from any post-state of earlier calls == encode on a fresh encoder'"}
 
@@ -162,6 +177,9 @@ def c02_jobs():
             jobs.append(Job("dec.cpp", "h_dec_fresh", defs={"N": n, "VER": ver}, unwind=max(n, 8) * 4 + 20, unwindset=dec_unwindset(n), tier=tier,
                             in_max=2 * n + 8, mem_gb=6, sym="every frame byte except the CMP version byte (incl. all length/type/flag fields); second fill of the buffer",
                             outside="frames > 56 bytes"))
+    for n, pt in ((60, 1), (61, 1), (62, 1), (63, 1), (64, 2), (65, 2), (66, 2)):
+        jobs.append(Job("dec.cpp", "h_dec_fresh", defs={"N": n, "VER": 1, "FMT": 3, "FPT": pt}, unwind=max(n, 8) * 4 + 20, unwindset=dec_unwindset(n), tier="quick" if n in (61, 62, 65) else "thorough",
+                        in_max=2 * n + 8, mem_gb=6, sym="every frame byte except version, message type (status) and the first payload type byte (capture-module / interface status)", outside="frames > 66 bytes"))
     return jobs
 
 
@@ -244,6 +262,8 @@ def seq_jobs(shapes_quick, shapes_thorough):
             if key in seen:
                 continue
             seen.add(key)
+            if not jobs:
+                jobs.append(Job("seq.cpp", "h_endpoint_key", defs={"PFX": d["PFX"], "F": 1}, unwind=10, in_max=16, mem_gb=2, sym="both device ids and both stream ids (all 2^48 combinations)", variant="real"))
             jobs.append(Job("seq.cpp", "h_seq", defs=d, unwind=400, unwindset={("Decoder6decode", None): 3, ("_M_realloc_insert", None): 3, ("_Hashtable", None): 4, ("_M_release", None): 3},
                             tier=tier, in_max=16 + d["F"] * 64, mem_gb=8, sym=SEQ_SYM, outside=SEQ_OUT, variant=SEQ_VARIANT))
             if d["PFX"] == 5 and d["F"] <= 3 and SEQ_VARIANT == "mapmodel":
